@@ -5,6 +5,85 @@ use crate::dump::*;
 use crate::gen::*;
 use std::collections::BTreeMap;
 
+pub fn fill_cells(rng: &mut Rng, ws: &mut umya_spreadsheet::Worksheet, ncells: u32, ctrl: bool, padded_cached: bool, uid: &mut u32, o: &mut Outcome) {
+    for _ in 0..ncells {
+        let pos = position(rng);
+        let cell = ws.get_cell_mut(pos);
+        match rng.below(16) {
+            0..=3 => {
+                let t = hostile_text(rng, ctrl, uid);
+                if t.trim() != t {
+                    o.count("text.padded", 1);
+                }
+                if t.contains('\r') {
+                    o.count("text.cr", 1);
+                }
+                if t.chars().any(|c| c as u32 > 0xFFFF) {
+                    o.count("text.nonbmp", 1);
+                }
+                cell.set_value_string(t);
+                o.count("kind.text", 1);
+            }
+            4 => {
+                cell.set_rich_text(rich_text(rng, ctrl, uid));
+                o.count("kind.rich", 1);
+            }
+            5..=7 => {
+                cell.set_value_number(hostile_number(rng));
+                o.count("kind.number", 1);
+            }
+            8 => {
+                cell.set_value_bool(rng.chance(1, 2));
+                o.count("kind.bool", 1);
+            }
+            9 => {
+                cell.set_error(*rng.pick(ERRORS));
+                o.count("kind.error", 1);
+            }
+            10 => {
+                // value guessing path
+                let t = hostile_text(rng, false, uid);
+                cell.set_value(t);
+                o.count("kind.guessed", 1);
+            }
+            _ => {
+                // formula (reference-free or simple) with a cached result of every kind
+                let f = *rng.pick(&["1+1", "SUM(1,2)*3", "\"a\"&\"<b>\"", "IF(TRUE,\"x y\",0)", "A1+B2", "NA()", "1/0", "PI()", "TODAY()", "\"  pad  \"", "1=1", "UPPER(\"é&\")"]);
+                // Excel has no formula with a rich-text result; clear what an earlier step may have put here
+                cell.set_blank();
+                cell.set_formula(f);
+                match if padded_cached { rng.below(6) } else { rng.below(5) } {
+                    0 => {
+                        cell.set_formula_result_default(format!("{}", hostile_number(rng)));
+                        o.count("formula.cached-number", 1);
+                    }
+                    1 => {
+                        cell.set_formula_result_default(*rng.pick(&["TRUE", "FALSE"]));
+                        o.count("formula.cached-bool", 1);
+                    }
+                    2 => {
+                        cell.set_formula_result_default(*rng.pick(ERRORS));
+                        o.count("formula.cached-error", 1);
+                    }
+                    3 => {
+                        o.count("formula.cached-blank", 1);
+                    }
+                    4 => {
+                        let t = format!("res{} <&> é😀", uid);
+                        cell.set_formula_result_default(t);
+                        o.count("formula.cached-text", 1);
+                    }
+                    _ => {
+                        cell.set_formula_result_default(*rng.pick(&[" padded", "padded ", "  both  ", "a\nb", "\ttab"]));
+                        o.count("formula.cached-padded-text", 1);
+                    }
+                }
+                o.count("kind.formula", 1);
+            }
+        }
+    }
+}
+
 pub fn build(rng: &mut Rng, o: &mut Outcome) -> umya_spreadsheet::Spreadsheet {
     let nsheets = rng.range(1, 4) as usize;
     let names = sheet_names(rng, nsheets);
@@ -15,89 +94,15 @@ pub fn build(rng: &mut Rng, o: &mut Outcome) -> umya_spreadsheet::Spreadsheet {
         o.feat("xml-illegal-chars");
     }
     let padded_cached = rng.chance(1, 6);
+    if padded_cached {
+        o.feat("formula-cached-padded-text");
+    }
     let mut uid = 0u32;
     let big = rng.chance(1, 12);
     for si in 0..nsheets {
         let ncells = if big { rng.range(300, 1500) } else { rng.range(0, 40) };
         let ws = book.get_sheet_mut(&si).unwrap();
-        for _ in 0..ncells {
-            let pos = position(rng);
-            let cell = ws.get_cell_mut(pos);
-            match rng.below(16) {
-                0..=3 => {
-                    let t = hostile_text(rng, ctrl, &mut uid);
-                    if t.trim() != t {
-                        o.count("text.padded", 1);
-                    }
-                    if t.contains('\r') {
-                        o.count("text.cr", 1);
-                    }
-                    if t.chars().any(|c| c as u32 > 0xFFFF) {
-                        o.count("text.nonbmp", 1);
-                    }
-                    cell.set_value_string(t);
-                    o.count("kind.text", 1);
-                }
-                4 => {
-                    cell.set_rich_text(rich_text(rng, ctrl, &mut uid));
-                    o.count("kind.rich", 1);
-                }
-                5..=7 => {
-                    cell.set_value_number(hostile_number(rng));
-                    o.count("kind.number", 1);
-                }
-                8 => {
-                    cell.set_value_bool(rng.chance(1, 2));
-                    o.count("kind.bool", 1);
-                }
-                9 => {
-                    cell.set_error(*rng.pick(ERRORS));
-                    o.count("kind.error", 1);
-                }
-                10 => {
-                    // value guessing path
-                    let t = hostile_text(rng, false, &mut uid);
-                    cell.set_value(t);
-                    o.count("kind.guessed", 1);
-                }
-                _ => {
-                    // formula (reference-free or simple) with a cached result of every kind
-                    let f = *rng.pick(&["1+1", "SUM(1,2)*3", "\"a\"&\"<b>\"", "IF(TRUE,\"x y\",0)", "A1+B2", "NA()", "1/0", "PI()", "TODAY()", "\"  pad  \"", "1=1", "UPPER(\"é&\")"]);
-                    // Excel has no formula with a rich-text result; clear what an earlier step may have put here
-                    cell.set_blank();
-                    cell.set_formula(f);
-                    match if padded_cached { rng.below(6) } else { rng.below(5) } {
-                        0 => {
-                            cell.set_formula_result_default(format!("{}", hostile_number(rng)));
-                            o.count("formula.cached-number", 1);
-                        }
-                        1 => {
-                            cell.set_formula_result_default(*rng.pick(&["TRUE", "FALSE"]));
-                            o.count("formula.cached-bool", 1);
-                        }
-                        2 => {
-                            cell.set_formula_result_default(*rng.pick(ERRORS));
-                            o.count("formula.cached-error", 1);
-                        }
-                        3 => {
-                            o.count("formula.cached-blank", 1);
-                        }
-                        4 => {
-                            let t = format!("res{} <&> é😀", uid);
-                            cell.set_formula_result_default(t);
-                            o.count("formula.cached-text", 1);
-                        }
-                        _ => {
-                            // padded cached text
-                            o.feat("formula-cached-padded-text");
-                            cell.set_formula_result_default(*rng.pick(&[" padded", "padded ", "  both  ", "a\nb", "\ttab"]));
-                            o.count("formula.cached-padded-text", 1);
-                        }
-                    }
-                    o.count("kind.formula", 1);
-                }
-            }
-        }
+        fill_cells(rng, ws, ncells, ctrl, padded_cached, &mut uid, o);
     }
     book
 }
